@@ -33,6 +33,12 @@ def replay_one(chk, rp):
         ok, res = C.wellformed(doc)
         print('replay:', repr(doc)[:400], '->', 'well-formed' if ok else res)
         return 0 if ok else 1
+    if 'string_document' in inp:
+        from common import dec_str
+        C.string_document_one(chk, dec_str(inp['string_document']), want_identity=False)
+        for f in chk.failures:
+            print('replay:', f['sig'], f['case'].get('rendering', ''), '->', f['detail'][:300])
+        print('replay: %d stream(s) of the document not well-formed' % len(chk.failures)); return 1 if chk.failures else 0
     if 'generated_prefix_history' in inp:
         C.generated_prefix_one(chk, inp['generated_prefix_history'])
         for f in chk.failures:
@@ -46,7 +52,9 @@ def run(chk, replay=None):
                 'characters in the three positions; seeded random trees (depth <= 4, foreign/empty namespaces, nasty strings); '
                 'random documents through all seven renderings; namespace-table histories in fresh interpreters; histories in which '
                 'load() meets source prefixes of the generated form ns<k> and further foreign namespaces follow, every rendering after; '
-                'every adjacent high+low surrogate pair. '
+                'every adjacent high+low surrogate pair; all 1,114,112 code points in bulk through writer and expat; reference '
+                'look-alikes (&#<digits of every script>; &#x..; &name;) as strings and inside documents; long strings with every special '
+                'token at and around the block boundaries 2^10..2^17 (strings, elements, documents). '
                 'non-trivial = non-empty string / tree with attributes or children')
     if replay is not None:
         r = replay_one(chk, replay)
@@ -57,6 +65,10 @@ def run(chk, replay=None):
     fs = C.encoders(chk, drv)
     C.strings_check(chk, drv, fs, want_identity=False)
     C.surrogate_pairs_check(chk, drv, fs, want_identity=False)
+    C.all_codepoints_oracle(chk, fs, want_identity=False)
+    C.reference_lookalikes_check(chk, drv, fs, want_identity=False)
+    C.boundary_strings_check(chk, drv, fs, want_identity=False)
+    C.boundary_trees_check(chk, drv, want_identity=False)
     C.adjacent_nodes_check(chk, drv, want_identity=False)
     C.trees_check(chk, drv, want_identity=False)
     C.extreme_trees_check(chk, drv, want_identity=False)
